@@ -197,7 +197,7 @@ def obligations(tier, seed):
                 "name": f"limited_stream[N={N},ops={'+'.join(kinds)},readinto={has_readinto}]",
                 "body": "body_limited",
                 "params": {"N": N, "kinds": list(kinds), "has_readinto": has_readinto},
-                "opts": {"ctx": {"fork_indices": False}, "budget_s": 600 if tier == "quick" else 3000},
+                "opts": {"ctx": {"fork_indices": False, "buf_cap": N + 2}, "budget_s": 600 if tier == "quick" else 3000},
                 "witness": kinds[0] == "readinto",
             })
     for k in ("text", "absent"):
